@@ -9,7 +9,9 @@ Generated (Hypothesis)
   degree l in 2..4; 1..4 radii 1e3..1e7 m; per radius complex y1..y4 (log-uniform magnitudes y1,y3 1e-6..1,
   y2,y4 1..1e8, arbitrary phases), shear |mu| 1e7..1e12 with loss angle 0.002..1.5 rad, bulk 1e8..1e13 (float array,
   or complex array with loss angle 0..0.3); `elastic` cases have real moduli and real y (`elastic_cy`: real
-  moduli, complex y); longitude (0..2pi), colatitude (0.05..pi-0.05) and time grids of 1..6 points each;
+  moduli, complex y); longitude (0..2pi), colatitude and time grids of 1..6 points each; colatitude points are interior
+  (0.01..pi-0.01) or at a log-uniform distance 10^[-7,-2] rad from either pole (never exactly 0 or pi, where the code
+  divides by zero);
   potentials satisfying the degree-l surface Laplace identity by construction:
     ylm    U = amp * sum_m N_lm P_lm(cos th) [(a_m cos wt + a'_m sin wt) cos m ph + (b_m cos wt + b'_m sin wt) sin m ph]
            with analytic derivatives from oracles/ylm.py (self-tested: closed forms, Laplace identity, central
@@ -26,7 +28,7 @@ Oracles, at every radius and grid point (lam = K - 2 mu/3 computed by the harnes
              sigma_rth == y4 U_th, sigma_rph == y4 U_ph / sin th   |err| <= TRAC_TOL * |y4| |dU|
   heating    dtype float64, finite, >= -HEAT_TOL*scale (non-negative to rounding), == c |Im sum_k w_k sigma_k conj(eps_k)|,
              w = (1,1,1,2,2,2), with one positive constant c per case (median ratio over the points whose dissipation
-             is > 1e-6 of the scale; c in [1e-3,1e3]; the statement fixes no normalisation such as omega/2)
+             is > max(1e-6, 0.1 x the best-conditioned point) of the scale; c in [1e-3,1e3]; the statement fixes no normalisation such as omega/2)
                                                                    |err| <= HEAT_TOL (1e-10) * c * sum_k w_k |sigma_k||eps_k|
   elastic    real moduli: heating <= ELASTIC_TOL * sum_k w_k (|sigma_k| + 2|mu||eps_k| + (|K|+|mu|) sum_diag|eps|) |eps_k|
              (real y: exactly 0 is expected; complex y with real moduli: sigma_k conj(eps_k) sums to a real number only
@@ -45,6 +47,22 @@ potential arrays, 2.0e-14 of their term sum), sigma_rth 4.9e-16, sigma_rph 5.8e-
 like sin(m*1e-308) are subnormal and their products lose relative accuracy).  A wrong coefficient moves the
 hooke / sigma_rr residual to O(0.01..1) of the scale, i.e. >= 1e9 x the tolerance.
 
+Near the poles (distance d from a pole, sin th ~ d).  No tolerance is loosened; the per-point scales already carry the
+amplification.  sigma_rr = y2 U holds only through the Laplace identity, i.e. after U_pp/sin^2 (~ m^2 A/d for m = 1) and
+cot th U_th (~ A/d) cancel to O(A); the code (and the supplied double-precision arrays) round each of them relative to
+its own magnitude, so the attainable accuracy of sigma_rr is eps * |lam| |y3|/r * (|U_pp|/sin^2 + |cot U_th|), which is
+exactly the pole-dependent part of S_rr (_srr_scale) - it grows like 1/d only when the m = 1 content is present, and only
+for the rr component.  sigma_rph = y4 U_ph/sin th is a single product (no cancellation): eps * |y4||U_ph|/sin th.
+sigma_rth and Hooke's law do not involve 1/sin at all.  The harmonic oracle evaluates P_lm and both theta-derivatives
+analytically as sin^m * polynomial(cos) (no differences, no division by sin), so its Laplace residual near the poles is
+the same few eps of the term sum as elsewhere.  Calibration with pole points (3 seeds x 1 000 cases, ~ 700 pole points
+per class <1e-5 / 1e-5..1e-3 / 1e-3..1e-2 rad): worst error/scale AT pole points sigma_rr 4.0e-16, sigma_rph 5.4e-16,
+sigma_rth 4.4e-16, hooke 2.8e-16 (tolerances 1e-11 / 1e-12); a change that drops or alters the 1/sin, cot terms moves
+sigma_rr by ~ d * S_rr (>= 1e-7 S_rr) and sigma_rph by its full scale.
+The repository's own l = 2 potentials are only used at >= 0.02 rad from the poles: they evaluate P22 as 3(1 - cos^2 th),
+whose relative accuracy is eps/sin^2 th, so closer in they no longer satisfy the Laplace identity to 1e-11 (the
+statement's precondition; C14's domain) and would only be discarded.
+
 Not checked (the statement has no clause for them): eps_thph beyond Hooke's law, calculate_displacements.
 
 Sensitivity (tools/mut.py, 300 cases, all CAUGHT):
@@ -54,6 +72,7 @@ Sensitivity (tools/mut.py, 300 cases, all CAUGHT):
   stress_strain.py  `strains[4, ...] = y4_shear * s4_t0 / 2.` -> `y4_shear * tp_p_p / 2.` (lost 1/sin theta)      CAUGHT traction/rph
   stress_strain.py  `if k < 3:` -> `if k < 2:` (lambda tr(eps) missing from sigma_phph)                           CAUGHT hooke
   stress_strain.py  `+ cot_theta * tp_p_t` -> `- cot_theta * tp_p_t` in eps_phph                                  CAUGHT traction/rr
+  seeded/C15-4      "pole-safe" 1/sin, cot := 0 where |sin th| < 1e-3                                             CAUGHT traction/rr, traction/rph
 """
 import math
 
@@ -73,7 +92,7 @@ LEVEL_TEXT = ('Generated-input exploration: for hundreds (quick) to tens of thou
               'holds on everything generated, not a proof for all inputs.')
 LEVEL_NOTE = ('Trusts numpy complex arithmetic and the self-tested harmonic oracle oracles/ylm.py (closed forms l<=4, Laplace '
               'identity, central differences); the l=2 repository potentials are trusted only after passing the Laplace '
-              'identity in-check (their own correctness is C14). Colatitudes within 0.05 rad of the poles, liquid layers '
+              'identity in-check (their own correctness is C14). Colatitudes within 1e-7 rad of the poles, liquid layers '
               '(mu = 0) and lambda + 2 mu = 0 are outside the generated domain.')
 CASES = {'quick': 1600, 'thorough': 600000}
 SHARDS = {'quick': 8, 'thorough': 16}
@@ -95,7 +114,7 @@ RULE = ('Hypothesis draws degree l in {2,3,4}, 1..4 radii, complex y1..y4 and co
         'entry (max |.| > 1e-6 x max |U| scale); distinct = distinct case hash.')
 ASSUMPTIONS = ['hooke 1e-12, tractions 1e-11, heating 1e-12 of the sum of term magnitudes; elastic 1e-14',
                'potential arrays satisfy U_tt + cot U_t + U_pp/sin^2 = -l(l+1) U to 1e-11 (checked per case, else discard)',
-               'colatitude in [0.05, pi-0.05]; |mu| > 0; Re K, Re mu > 0']
+               'colatitude in [1e-7, pi-1e-7] (repository potentials: [0.02, pi-0.02]); |mu| > 0; Re K, Re mu > 0']
 
 STATS = {}
 
@@ -512,7 +531,8 @@ def evaluate(case):
         # "derived from them": heating == c * |Im sum_k w_k sigma_k conj(eps_k)| with ONE positive constant c for all
         # points of the case (the statement fixes no normalisation such as omega/2); c = median ratio over the points
         # where the dissipation is not a cancellation residue.
-        sig_pts = want_h > 1e-6 * hscale
+        cond = want_h / (hscale + tiny)                    # conditioning of the dissipation at each point
+        sig_pts = cond > max(1e-6, 0.1 * float(np.max(cond)))   # median over the well-conditioned points only
         if np.any(sig_pts) and np.all(hscale[sig_pts] > 1e-250):
             cfac = float(np.median(heating[sig_pts] / want_h[sig_pts]))
             c.label('heating:c=1' if abs(cfac - 1.0) <= 1e-9 else 'heating:c!=1')
